@@ -487,6 +487,12 @@ from Reduino.transpile.parser import parse
 from Reduino.transpile.emitter import emit
 corpus = json.loads(sys.argv[2])
 order = json.loads(sys.argv[3])
+import os as _os
+if _os.environ.get("C10_AMBIENT") == "decimal":
+    # the caller's thread-local arithmetic context / float repr style is ambient state of the process, not part of the text
+    import decimal
+    decimal.getcontext().prec = 3
+    decimal.getcontext().rounding = decimal.ROUND_UP
 out = []
 held = None      # (index, Program, text): re-emitted after the NEXT script was parsed - a returned Program owns its data
 for i in order:
@@ -562,6 +568,8 @@ def stack_depth_obligation(out):
 # literals that compare equal and print differently (0.0 / -0.0 / 0 / False, 1 / 1.0 / True): a table keyed by equality that is shared
 # between calls hands the first spelling to every later script
 EQUAL_VALUE_SCRIPTS = [_IMP + "from Reduino.Utils import sleep\n" + body for body in (
+    "bz = Buzzer(8)\nbz.melody('success')\nbz.melody('error', tempo=97.5)\nbz.sweep(200.5, 801.25, duration_ms=333, steps=7)\nm = DCMotor(5, 6, 9)\nm.set_speed(0.333333)\nm.ramp(0.1234567, 1001)\ns = Servo(9)\ns.write(33.3333)\n",
+    "mon = SerialMonitor(9600)\nmon.write('21\u00b0C caf\u00e9 \u00b5s \u6e29\u5ea6 \u20ac')\nlabel = '\u00fcber'\nmon.write(label)\nd = LCD(i2c_addr=39)\nd.write(0, 0, 'na\u00efve \u00b0')\nratio = 0.1\nbig = 1234567.891\ntiny = 0.000012345\nmon.write(ratio + big + tiny)\n",
     "m = DCMotor(5, 6, 9)\nm.set_speed(-0.0)\n", "m = DCMotor(5, 6, 9)\nm.set_speed(0.0)\n", "m = DCMotor(5, 6, 9)\nm.set_speed(0)\n", "m = DCMotor(5, 6, 9)\nm.set_speed(False)\n",
     "m = DCMotor(5, 6, 9)\nm.set_speed(1)\n", "m = DCMotor(5, 6, 9)\nm.set_speed(1.0)\n", "m = DCMotor(5, 6, 9)\nm.set_speed(True)\n",
     "x = -0.0\ny = 1\nsleep(1)\n", "x = 0.0\ny = 1.0\nsleep(1.0)\n", "x = 0\ny = True\nsleep(True)\n",
@@ -592,9 +600,18 @@ def replay_differ(tier, seed, out):
     runs_plan = [(hs, order, ()) for hs in seeds for order in ((singles + histories) if hs == 0 else histories if hs < 3 else histories[:1])]
     # the interpreter's optimisation level is part of "the process", not of the text: -O / -OO (asserts and docstrings compiled away)
     runs_plan += [(0, fresh, ("-O",)), (1, fresh, ("-OO",)), (0, list(reversed(fresh)), ("-OO",))]
+    # ambient process state: the C locale without UTF-8 mode, a UTF-8 locale with UTF-8 mode, a coarse decimal context
+    amb = list(range(len(corpus)))
+    runs_plan += [(0, amb, ("-X", "utf8=0", "ENV:LC_ALL=C", "ENV:LANG=C", "ENV:PYTHONCOERCECLOCALE=0", "ENV:PYTHONUTF8=0")), (0, amb, ("-X", "utf8=1", "ENV:LC_ALL=C.UTF-8")),
+                  (0, amb, ("ENV:C10_AMBIENT=decimal",)), (0, amb, ("ENV:LC_ALL=POSIX", "ENV:LC_NUMERIC=de_DE.UTF-8", "ENV:TZ=Asia/Tokyo"))]
     for hs, order, flags in runs_plan:
         if True:
             env = dict(os.environ, PYTHONHASHSEED=str(hs))
+            for f_ in flags:
+                if f_.startswith("ENV:"):
+                    k_, _, v_ = f_[4:].partition("=")
+                    env[k_] = v_
+            flags = tuple(f_ for f_ in flags if not f_.startswith("ENV:"))
             r = subprocess.run(["/venv/bin/python", *flags, "-c", REPLAY_PROG, src, json.dumps(corpus), json.dumps(order)],
                                capture_output=True, text=True, env=env, timeout=300)
             runs += 1
